@@ -16,7 +16,7 @@ def gen_scenario(rng):
     batch = rng.choice([1, 2, 3, 5])
     period = rng.choice([0.05, 0.1, 0.25, 1.0])
     producers = rng.randint(1, 3)
-    vals = list(range(1, nvals + 1))
+    vals = list(range(0, nvals))          # 0 is a value like any other (a worker that tests `if item:` would drop it)
     split = [[] for _ in range(producers)]
     for v in vals:
         split[rng.randrange(producers)].append(v)
